@@ -640,8 +640,13 @@ pub fn sibling_shader(seed: u64, variant: u32) -> String {
     let n_items = shape.usize(1, 4);
     let n_extra = shape.usize(0, 3);
     let with_texture = shape.chance(600);
-    let with_vertex = shape.chance(700);
+    let n_vertex = if shape.chance(700) { shape.usize(1, 5) } else { 0 };
     let workgroup = [1u32, 8, 64][shape.below(3) as usize];
+    // vertex input structs in an order that is neither alphabetical nor reverse
+    let mut vertex_names = vec!["MeshVertex", "SkinnedVertex", "ParticleVertex", "QuadVertex", "TextVertex", "LineVertex"];
+    for i in (1..vertex_names.len()).rev() {
+        vertex_names.swap(i, shape.below(i as u64 + 1) as usize);
+    }
     // leaves from the variant: variants 0, 1, 2 use one scalar type everywhere, so that the type
     // arenas of those siblings line up index by index
     let mut pick = Rng::new(seed.wrapping_mul(0x9E37_79B9).wrapping_add(variant as u64) ^ 0x1EAF);
@@ -654,6 +659,15 @@ pub fn sibling_shader(seed: u64, variant: u32) -> String {
         }
     };
     let mut out = String::new();
+    // Head: the same for every sibling of the seed, and longer than any prefix a fingerprint
+    // might look at. All variant-dependent text below has the same length in every variant, and
+    // the tail (the entry points) is variant-independent again: siblings have equal length, an
+    // equal beginning and an equal end.
+    let _ = writeln!(out, "// Shared camera and frame constants. Keep this block in sync with the host side:");
+    let _ = writeln!(out, "// the layout is mirrored by hand in the renderer, so members are only ever appended.");
+    let _ = writeln!(out, "struct Common {{\n    view_proj: mat4x4<f32>,\n    origin: vec4<f32>,\n    extent: vec4<f32>,\n    frame: vec4<u32>,\n}}");
+    let _ = writeln!(out, "@group(0) @binding(0) var<uniform> shared_frame: Common;");
+    // Middle: the leaves.
     let _ = writeln!(out, "struct Elem {{\n    a: vec4<{}>,\n    b: vec4<{}>,\n}}", leaf(), leaf());
     let _ = writeln!(out, "struct Block {{");
     let _ = writeln!(out, "    head: vec4<{}>,", leaf());
@@ -664,24 +678,30 @@ pub fn sibling_shader(seed: u64, variant: u32) -> String {
         let _ = writeln!(out, "    extra{e}: vec2<{}>,", leaf());
     }
     let _ = writeln!(out, "}}");
-    let _ = writeln!(out, "@group(0) @binding(0) var<uniform> block: Block;");
-    let _ = writeln!(out, "@group(0) @binding(1) var<storage, read_write> out_buf: array<vec4<{}>>;", leaf());
+    let _ = writeln!(out, "@group(0) @binding(1) var<uniform> block: Block;");
+    let _ = writeln!(out, "@group(0) @binding(2) var<storage, read_write> out_buf: array<vec4<{}>>;", leaf());
     if with_texture {
+        // same binding indices as group 0: a tie for whoever orders by binding alone
         let _ = writeln!(out, "@group(1) @binding(0) var tex: texture_2d<{}>;", leaf());
-        let format = ["rgba8unorm", "rgba16float", "rgba32float"][(variant % 3) as usize];
+        let format = ["rgba8unorm", "rgba8snorm", "rgba8unorm"][(variant % 3) as usize];
         let _ = writeln!(out, "@group(1) @binding(1) var stex: texture_storage_2d<{format}, write>;");
     }
     let _ = writeln!(out, "const SIBLING_LIMIT: u32 = {}u;", 10 + variant % 7);
     let _ = writeln!(out, "override sibling_scale: f32 = {}.5;", variant % 5);
-    if with_vertex {
-        let _ = writeln!(out, "struct VIn {{\n    @location(0) p: vec4<{}>,\n    @location(1) q: vec2<{}>,\n}}", leaf(), leaf());
-        let _ = writeln!(out, "@vertex\nfn vs_main(in: VIn) -> @builtin(position) vec4<f32> {{\n    let h = block.head;\n    return vec4<f32>(sibling_scale);\n}}");
+    // several vertex input structs that all start at @location(0): ties for whoever orders them
+    // by location, size or field count
+    for name in vertex_names.iter().take(n_vertex) {
+        let _ = writeln!(out, "struct {name} {{\n    @location(0) p: vec4<{}>,\n    @location(1) q: vec2<{}>,\n}}", leaf(), leaf());
     }
-    let _ = writeln!(out, "@compute @workgroup_size({workgroup})\nfn cs_main() {{\n    out_buf[0] = out_buf[1];\n    let g = block.grid[1][1];\n}}");
+    // Tail: entry points, the same text for every sibling of the seed.
+    for (k, name) in vertex_names.iter().take(n_vertex).enumerate() {
+        let _ = writeln!(out, "@vertex\nfn vs_main{k}(in: {name}) -> @builtin(position) vec4<f32> {{\n    let h = block.head;\n    return shared_frame.view_proj * vec4<f32>(sibling_scale);\n}}");
+    }
+    let _ = writeln!(out, "@compute @workgroup_size({workgroup})\nfn cs_main() {{\n    out_buf[0] = out_buf[1];\n    let g = block.grid[1][1];\n    let f = shared_frame.frame;\n}}");
     if with_texture {
-        let _ = writeln!(out, "@fragment\nfn fs_main() -> @location(0) vec4<f32> {{\n    let t = textureLoad(tex, vec2<i32>(0, 0), 0);\n    textureStore(stex, vec2<i32>(0, 0), vec4<f32>(0.0));\n    let v = block.values[0];\n    return vec4<f32>(f32(SIBLING_LIMIT));\n}}");
+        let _ = writeln!(out, "@fragment\nfn fs_main() -> @location(0) vec4<f32> {{\n    let t = textureLoad(tex, vec2<i32>(0, 0), 0);\n    textureStore(stex, vec2<i32>(0, 0), vec4<f32>(0.0));\n    let v = block.values[0];\n    return vec4<f32>(f32(SIBLING_LIMIT)) + shared_frame.origin;\n}}");
     } else {
-        let _ = writeln!(out, "@fragment\nfn fs_main() -> @location(0) vec4<f32> {{\n    let v = block.items[0].a;\n    return vec4<f32>(f32(SIBLING_LIMIT));\n}}");
+        let _ = writeln!(out, "@fragment\nfn fs_main() -> @location(0) vec4<f32> {{\n    let v = block.items[0].a;\n    return vec4<f32>(f32(SIBLING_LIMIT)) + shared_frame.extent;\n}}");
     }
     out
 }
